@@ -882,7 +882,6 @@ func checkSaveMainBranch(p *load.Program, r *kit.Report) {
 	r.Check(bad == "", "MAIN-FILE-SHAPE", "saveMainBranch/rollover", pos, "file+1 and boundary+headersPerFile at each file end", bad)
 }
 
-
 // checkConfigMerge: in load, every configured invalid hash that equals none of the hashes of the
 // list is appended to it. Decided on the loop over config.InvalidHeaderHashes: from the start of an
 // iteration, along the paths on which no Equal answers true, the append is reached before the next
